@@ -50,6 +50,13 @@ def truthyO : Option Str → Bool
 
 def booleanFor (name : Str) : List Str := (booleanAttributes.lookup name).getD []
 
+/-- `token.get("namespace") in (None, namespaces["html"])`: the raw-text decision is made for HTML elements only
+(since fix COMMIT_A) -/
+def htmlOrNone (ns : Option Str) : Bool :=
+  match ns with
+  | none => true
+  | some n => namespaces.lookup [104, 116, 109, 108] == some n
+
 /-- one attribute: ` k[=v]`, and whether its value was written unquoted -/
 def attrOut (o : Opts) (tagName : Str) (a : Attr) : Str × Bool :=
   let k := a.name
@@ -102,9 +109,9 @@ def step (o : Opts) (s : St) (t : Tok) : Except PyErr St :=
   | .space data =>
       let s := if s.inCdata && data.contains (lit "</") then s.err "Unexpected </ in CDATA" else s
       .ok (s.emit data)
-  | .startTag _ name attrs | .emptyTag _ name attrs =>
+  | .startTag ns name attrs | .emptyTag ns name attrs =>
       let s := s.emit ([60] ++ name)
-      let s := if rcdataElements.elem name && !o.escapeRcdata then { s with inCdata := true }
+      let s := if rcdataElements.elem name && !o.escapeRcdata && htmlOrNone ns then { s with inCdata := true }
                else if s.inCdata then s.err "Unexpected child element of a CDATA element" else s
       let (s, unquotedLast) := attrs.foldl
         (fun (acc : St × Bool) a => let r := attrOut o name a; (acc.1.emit r.1, r.2)) (s, false)
@@ -112,8 +119,8 @@ def step (o : Opts) (s : St) (t : Tok) : Except PyErr St :=
                  s.emit (if o.spaceBeforeTrailingSolidus || unquotedLast then [32, 47] else [47])
                else s
       .ok (s.emit [62])
-  | .endTag _ name =>
-      let s := if rcdataElements.elem name then { s with inCdata := false }
+  | .endTag ns name =>
+      let s := if rcdataElements.elem name && htmlOrNone ns then { s with inCdata := false }
                else if s.inCdata then s.err "Unexpected child element of a CDATA element" else s
       .ok (s.emit (lit "</" ++ name ++ [62]))
   | .comment data =>
